@@ -189,6 +189,11 @@ func vFamilies(thorough bool) []map[string][]vRule {
 		map[string][]vRule{"Root": {id, {"Open", `\(`, "push:S\x7f\a\U000e0041"}}, "S\x7f\a\U000e0041": {cl, ws, inc("Root")}},
 		map[string][]vRule{"Root": {{"returnToParent", `r+`, ""}, id, ws}},
 		map[string][]vRule{"Root": {id, {"returnToParent", `\(`, "push:A"}}, "A": {cl, {"", "", "return"}}},
+		// state names that look like action kinds, and the empty state name
+		map[string][]vRule{"Root": {id, {"Open", `\(`, "push:pop"}}, "pop": {cl, ws}},
+		map[string][]vRule{"Root": {id, inc("pop")}, "pop": {ws, {"Open", `\(`, "push:push"}}, "push": {cl, inc("include")}, "include": {under}},
+		map[string][]vRule{"Root": {id, {"Open", `\(`, "push:"}}, "": {cl, ws}},
+		map[string][]vRule{"Root": {id, inc("")}, "": {ws, {"Open", `\(`, "push:return"}}, "return": {cl, {"", "", "return"}}},
 	)
 	for _, r := range roots {
 		if len(r) == 0 {
@@ -256,7 +261,7 @@ func newNoPanic(rules Rules) (def *StatefulDefinition, err error, panicked inter
 // matches start at offset 0 (the rulesOK invariant Next's proof assumes: C03, C04, C07).
 func TestVerif_C03C04C07_New(t *testing.T) {
 	res := &verifResult{Check: "lexer.New", Property: "C03 C04 C07", Exhaustive: true,
-		Bound: "all rule maps with states Root (1-2 rules over the full alphabet), optional A (0 rules, or 1-3 rules over {Ident, ws, Close/pop, return}; thorough: also 1-2 over the full alphabet, plus optional B with 1 rule) over the rule alphabet of vAlphabet (plain / lower-case / underscore-initial names, metacharacter and unbalanced patterns, push, pop, include, return; a non-ASCII lower-case name; a rule named EOF; thorough adds unknown targets and digit-initial names); plus 6 rule maps with chains of includes over 3-4 states and 3 with state names needing JSON escapes / a user rule named returnToParent; include cycles excluded",
+		Bound: "all rule maps with states Root (1-2 rules over the full alphabet), optional A (0 rules, or 1-3 rules over {Ident, ws, Close/pop, return}; thorough: also 1-2 over the full alphabet, plus optional B with 1 rule) over the rule alphabet of vAlphabet (plain / lower-case / underscore-initial names, metacharacter and unbalanced patterns, push, pop, include, return; a non-ASCII lower-case name; a rule named EOF; thorough adds unknown targets and digit-initial names); plus 6 rule maps with chains of includes over 3-4 states and 3 with state names needing JSON escapes / a user rule named returnToParent and 4 with states named pop, push, include, return or the empty string; include cycles excluded",
 		Rule: "distinct rule maps; non-trivial = accepted by New and containing an action, include or return"}
 	seen := map[string]bool{}
 	for _, states := range vFamilies(verifThorough()) {
